@@ -14,6 +14,7 @@ pub fn check(p: &Pos, rep: &mut Report, rng: &mut StdRng, foreign: &mut Vec<Stri
     let legal_set: std::collections::BTreeSet<String> = legal.iter().map(|m| m.uci()).collect();
     let wants: Vec<(String, String, u8)> = legal.iter().map(|m| (m.uci(), san::san(p, *m), san::disambiguation_kind(p, *m))).collect();
     let foreign_now: Vec<String> = foreign.iter().rev().take(6).cloned().collect();
+    let mut handle_mismatch: Vec<(String, String, String)> = Vec::new();
     let r = guarded_mut(|| {
         let mut bb = load(p)?;
         let before = snap(&bb);
@@ -27,6 +28,14 @@ pub fn check(p: &Pos, rep: &mut Report, rng: &mut StdRng, foreign: &mut Vec<Stri
             for t in texts {
                 let b = guarded_mut(|| bb.pgn_to_bb(&t).map(|m| m.to_uci_string()).map_err(|_| ()));
                 backs.push((t, b));
+            }
+            // the other way to ask for the same text: the board's own Move value
+            let via_handle = guarded_mut(|| {
+                let mv = bb.generate_pseudo_legal_moves().into_iter().find(|m| m.to_uci_string() == *u);
+                mv.map(|m| m.to_pgn_string(&mut bb).map_err(|e| format!("{:?}", e)))
+            });
+            if let (Ok(Ok(g)), Ok(Some(h))) = (&got, &via_handle) {
+                if h.as_ref().ok() != Some(g) { handle_mismatch.push((u.clone(), g.clone(), format!("{:?}", h))); }
             }
             let d = before.diff(&snap(&bb));
             if !d.is_empty() { bb = load(p)?; }
@@ -46,6 +55,9 @@ pub fn check(p: &Pos, rep: &mut Report, rng: &mut StdRng, foreign: &mut Vec<Stri
         Ok(Err(e)) => { rep.violation("load-failed", e, json!({"kind":"c14","fen":fen})); return; }
         Ok(Ok(o)) => o,
     };
+    for (u, g, h) in handle_mismatch {
+        rep.violation("to_pgn_string-differs-from-uci_to_pgn", format!("{} in {}: uci_to_pgn = {}, Move::to_pgn_string = {}", u, fen, g, h), json!({"kind":"c14","fen":fen,"move":u}));
+    }
     for ((u, got, backs, d), (_, want, dis)) in out.into_iter().zip(wants.iter()) {
         rep.eval();
         let replay = json!({"kind":"c14","fen":fen,"move":u});
